@@ -134,6 +134,18 @@ CLAIMED = {
         note=TRUST,
         technique="symbolic composition of the real closures + exact polynomial identity (normaliser)",
         ref="5-C12"),
+    "C14": dict(
+        text="Contract-based relational proof on the REAL simulators: the step is executed on a state and on its relabelling "
+             "(2-D: transpose, two mirrors; 3-D: 3-cycle, transposition, mirror; non-square/non-cubic symbolic extents; vorticity "
+             "as pseudo-scalar / pseudo-vector; free stream and forcing transformed), both from the same symbols; at a symbolic cell "
+             "whose stencils avoid the boundary zone the results commute with the relabelling (exact polynomial identities; upwind "
+             "switches oriented canonically under the property's premise that no face velocity sum is zero). Poisson solve by "
+             "contract (isotropy from the C03 Green's-function obligations).",
+        note=TRUST + " Assumed: Poisson contract incl. isotropy; premise 'no face velocity sum is exactly zero'; interior cells "
+             "(the compact-support premise of the property makes boundary-zone cells trivial). Configurations: 2-D NS with/without "
+             "forcing, passive 2-D/3-D, 3-D NS with forcing and free stream, no filter.",
+        technique="two symbolic executions of the real step related by a signed axis permutation + exact polynomial identity",
+        ref="5-C14"),
     "C15": dict(
         text="Contract-based deductive proof by dependence analysis at EVERY kernel call performed by every contract unit "
              "(all generators, the three simulators' steps with their real buffer wiring, filters, SSP-RK3): written view vs each "
@@ -161,6 +173,19 @@ CLAIMED = {
              "real h5py. 'differ' = beyond numpy.allclose default tolerance. Level: proof over values, bounded (exhaustive) layouts.",
         technique="parametric symbolic execution of the real IO methods against an h5py contract stub",
         ref="5-C17"),
+    "C18": dict(
+        text="Contract-based proof of hidden-state freedom: every step of the three simulators, both Poisson solver classes "
+             "(stub / FFT side), the Laplacian filters and the SSP-RK3 closure are executed with ALL scratch state arbitrary "
+             "(garbage symbols: buffer_scalar/vector_field, stream function, solver work buffers, filter buffers, midstep buffer) "
+             "and proved equal to specifications that do not mention it; the virtual-boundary object's only persistent state is "
+             "(integral, last mismatch, clock) (C10 invariant); the IO round trip restores the public state bit-exactly (C17); "
+             "restart helper: path enumeration over directory listings (largest index, returned time, refusal when empty or when "
+             "flow and body times differ). Lemma M8 lifts these to: the state after step k+1 is a function of the checkpointed "
+             "public state.",
+        note=TRUST + " Assumed: PyElastica save_state/load_state (upstream issue cited by the repository's xfail test), M8, "
+             "h5py contract, checkpoint naming convention. The body time-stepper itself is outside the claim.",
+        technique="non-interference by symbolic execution with garbage scratch state + path enumeration of the restart helper",
+        ref="5-C18"),
     "C19": dict(
         text="Contract-based deductive proof: Brinkmann closures (convex combination, identity at chi=0, contraction identity), "
              "characteristic function (range, plateaus incl. +-w, monotone, H(phi)+H(-phi)=1; sin axiomatised), boundary damping "
